@@ -341,8 +341,13 @@ namespace fastscapelib
                             break;
                         }
 
-                        auto func_deriv = 1 + m_slope_exp * factor_delta_exp / delta_k;
-                        delta_k -= func / func_deriv;
+                        // Newton step func / func_deriv, with
+                        // func_deriv = 1 + m_slope_exp * factor_delta_exp / delta_k,
+                        // evaluated so that it neither overflows nor underflows
+                        // when delta_k is tiny (e.g., the elevation increments
+                        // set by the sink resolvers): an infinite derivative
+                        // gives a null step and the iterations never end
+                        delta_k -= func / (delta_k + m_slope_exp * factor_delta_exp) * delta_k;
 
                         if (delta_k <= 0)
                         {
